@@ -37,7 +37,7 @@ META = dict(
               'table extraction; interval facts by pattern; setter-less property '
               'store rule through the MRO of every scatterer class'
               '; exact return-path form of RigidCluster.scatterers'
-              '; constructor-only attribute stores in the scatterer package (no derived state survives copy(self)); truth table of the argument forms of translated / rotated',
+              '; constructor-only attribute stores in the scatterer package (no derived state survives copy(self)); truth table of the argument forms of translated / rotated; no root of a sum of squares of the inputs in the lengths; every returned azimuth reduced modulo 2 pi',
     level_text='Static: M1 and M4 are algebraic identities proved for all angles / '
                'points; M3, M5, M6 are exhaustive structural checks.  Orthogonality '
                'and det = +1 follow from M1 (product of three rotations) and are '
